@@ -171,7 +171,10 @@ class FileCache:
                 self.current_memory_usage += memory_usage
                 self.file_futures[file_name] = (False, memory_usage, info[-1])
             else:
+                # served uncached: neither an entry nor an LRU slot stays behind
                 del self.file_futures[file_name]
+                self.file_access_times = [(t, fn) for t, fn in self.file_access_times if fn != file_name]
+                heapq.heapify(self.file_access_times)
 
     def update_file(self, file_name, new_file_contents, use_fsync=False):
         """
@@ -270,7 +273,9 @@ class FileCache:
         bool: True if the claim is achieved, False otherwise
         """
         assert self.file_futures_lock.locked()
-        assert claim <= self.max_memory
+        if claim > self.max_memory:
+            # larger than the whole cache (the processed contents of a file can be larger than the file): not cacheable
+            return False
         # start_mem = self.current_memory_usage
         writing = None
         while (self.current_memory_usage + claim) > self.max_memory and len(self.file_access_times) > 0:
